@@ -417,28 +417,28 @@ pub(crate) mod c16_lockstub {
     pub(crate) static mut NESTED: u8 = 0;
     pub(crate) static mut REFP: Pieces = Pieces { n: 0, start: [0; MAXP], len: [0; MAXP] };
 
+    /// one complete call by "another thread", answer checked against the reference
+    unsafe fn nested_call() {
+        DEPTH = 1;
+        NESTED += 1;
+        let j: u32 = kani::any();
+        let r = (*VIEW).get_line(j);
+        let p = REFP;
+        assert!(line_is(&*VIEW, &p, j, r), "C16/nested-call-result");
+        DEPTH = 0;
+    }
+
+    /// S7: replacement of std::sync::Mutex::lock.  Outer call: first let another thread run
+    /// a complete call, then take the lock (a lock this call chain already holds is a
+    /// self-deadlock).  Nested call: a lock that is held means this thread would have to
+    /// wait for the outer call -- that is not an interleaving of complete calls, the path
+    /// is dropped.
     pub(crate) fn lock_with_yield<T>(m: &std::sync::Mutex<T>) -> LockResult<MutexGuard<'_, T>> {
         unsafe {
             if ACTIVE && DEPTH == 0 && !VIEW.is_null() {
-                // nobody holds the lock at this point unless this call chain does
-                let free = match (*VIEW).lines.try_lock() {
-                    Ok(g) => {
-                        drop(g);
-                        true
-                    }
-                    Err(_) => false,
-                };
-                if free {
-                    let go: bool = kani::any();
-                    if go {
-                        DEPTH = 1;
-                        NESTED += 1;
-                        let j: u32 = kani::any();
-                        let r = (*VIEW).get_line(j);
-                        let p = REFP;
-                        assert!(line_is(&*VIEW, &p, j, r), "C16/nested-call-result");
-                        DEPTH = 0;
-                    }
+                let go: bool = kani::any();
+                if go {
+                    nested_call();
                 }
             }
         }
@@ -446,8 +446,26 @@ pub(crate) mod c16_lockstub {
             Ok(g) => Ok(g),
             Err(TryLockError::Poisoned(p)) => Err(p),
             Err(TryLockError::WouldBlock) => {
-                assert!(false, "C16/call-blocks-on-a-lock-it-holds");
+                if unsafe { DEPTH } > 0 {
+                    kani::assume(false);
+                } else {
+                    assert!(false, "C16/call-blocks-on-a-lock-it-holds");
+                }
                 loop {}
+            }
+        }
+    }
+
+    /// callback for the repository's yield points (also those inside a critical section:
+    /// a nested call that needs the lock there is dropped by lock_with_yield, one that gets
+    /// by without the lock -- e.g. through try_lock and a fallback -- is run and checked)
+    fn hook_cb(_sv: &SourceView, _point: u8) {
+        unsafe {
+            if ACTIVE && DEPTH == 0 && !VIEW.is_null() {
+                let go: bool = kani::any();
+                if go {
+                    nested_call();
+                }
             }
         }
     }
@@ -462,6 +480,7 @@ pub(crate) mod c16_lockstub {
             DEPTH = 0;
             NESTED = 0;
             ACTIVE = false;
+            verif_hooks::set_callback(Some(hook_cb));
         }
         let warm: bool = kani::any();
         if warm {
@@ -486,7 +505,10 @@ pub(crate) mod c16_lockstub {
         assert!(sv.line_count() == p.n, "C16/later-line-count");
         kani::cover!(nested >= 1, "a nested call ran before a lock acquisition");
         kani::cover!(nested == 0, "no interference");
-        unsafe { VIEW = std::ptr::null() };
+        unsafe {
+            VIEW = std::ptr::null();
+            verif_hooks::set_callback(None);
+        }
         forget(sv);
     }
 }
